@@ -224,6 +224,14 @@ func parse(op string) (string, map[string]string) {
 }
 
 func c28Exec(op string) string {
+	if os.Getenv("VERIF_C28_TIME") != "" {
+		t0 := time.Now()
+		defer func() {
+			if d := time.Since(t0); d > 50*time.Millisecond {
+				fmt.Fprintf(os.Stderr, "%v %s\n", d, op[:min(len(op), 160)])
+			}
+		}()
+	}
 	name, toks := parse(op)
 	switch name {
 	case "reset":
